@@ -233,11 +233,15 @@ class Gen:
                 tag = r.choice(self.tags) if self.tags and r.random() < 0.8 else r.choice(["tag0", "tag1"])
                 ins.append({"op": "return_to", "tag": tag, "v": self.value()})
             elif k == "new":
-                if self.dyn_heavy and r.random() < 0.6:
+                if self.dyn_heavy and r.random() < 0.4:
                     ins.append({"op": "setdyn", "k": r.choice(self.dyn_keys), "v": r.randint(0, 99)})
                 c = self.new_fiber(depth + 1, ancestors)
                 ins.append({"op": "new", "f": c})
                 scope.append(c)
+                if self.dyn_heavy and r.random() < 0.5:
+                    # bound after the child was created and before it runs: visible through a :p / :i child's
+                    # environment chain even when this fiber had no table of its own when the child was made
+                    ins.append({"op": "setdyn", "k": r.choice(self.dyn_keys), "v": r.randint(0, 99)})
                 for _ in range(r.choice([0, 1, 1, 2, 3])):
                     ins.append(self.child_op(fid, [c], ancestors, 0))
             elif k == "child":
